@@ -1,6 +1,7 @@
 """C19 — declaring or converting a unit never changes the physical quantity reported."""
 from mq.util import *
 from mq.prov import Prov, promoted_summary
+from mq.facts import CallSite
 from mq import witness
 
 EXPL = ("W19.1 all 3x3 + 20x20 conversion ratios and their inverses, W19.2 all 26 unit names, the None->X ratios and the Duration "
@@ -11,7 +12,8 @@ EXPL = ("W19.1 all 3x3 + 20x20 conversion ratios and their inverses, W19.2 all 2
         "Convert::convert, dimensions and flags by identity; mismatch and string go to invalid(). R19.5 Convert::convert is the "
         "identity only under RATIO == 1.0, every other arm multiplies the value / total by RATIO, emits that product unaltered (no cast, rounding or "
         "further arithmetic after the multiplication) and leaves occurrences unchanged. "
-        "R19.6 the unit constant Duration writes equals its declared MetricValue::Unit. Not decided: rounding of value x ratio.")
+        "R19.6 the unit constant Duration writes equals its declared MetricValue::Unit. R19.7 the number written for a Duration is read through an exact accessor "
+        "(as_secs_f64 / as_nanos), never a truncating one. Not decided: rounding of value x ratio.")
 CORE = "metrique_writer_core"
 
 
@@ -153,4 +155,61 @@ def run(ctx):
             o = Prov(b).operand(c.args[2])
             ok = ok or any(x[0] == "agg" and x[2] == "Second" for x in o) and any(x[0] == "agg" and x[2] == "Milli" for x in o) or "Milli" in str(op_const(c.args[2]) or "")
         ctx.check(ok, "R19.6", fnkey(b) + "#writes-milliseconds-unit", loc(b), "Duration is not written with Unit::Second(Milli) although its declared unit is Millisecond")
+    # ------------------------------------------------------------------ R19.7 a Duration becomes a number without truncation
+    TRUNC = ("as_micros", "as_millis", "as_secs", "subsec_micros", "subsec_millis", "as_secs_f32", "as_millis_f32")
+    n7 = 0
+    for b in dv:
+        for c in [c for c in b.calls() if c.is_trait_method("ValueWriter", "metric")]:
+            seen_b, bad, exact = set(), [], []
+
+            def walk(body, roots, depth):
+                defs = body.defs()
+                seen, work = set(), list(roots)
+                while work:
+                    l = work.pop()
+                    if l in seen:
+                        continue
+                    seen.add(l)
+                    for kind, bb_, j, node in defs.get(l, []):
+                        if body.is_cleanup(bb_):
+                            continue
+                        if kind == "call":
+                            cs = CallSite(body, bb_, node)
+                            d_ = cs.resolved or cs.def_ or ""
+                            if "Duration" in d_ and cs.name in TRUNC:
+                                bad.append("%s in %s" % (cs.name, body.name))
+                            if "Duration" in d_ and cs.name in ("as_secs_f64", "as_nanos", "subsec_nanos", "as_millis_f64"):
+                                exact.append(cs.name)
+                            for a in node["args"]:
+                                pl = a.get("copy") or a.get("move")
+                                if pl is not None:
+                                    work.append(pl["l"])
+                            if depth > 0:
+                                for sb in local_callee_bodies(F, cs):
+                                    if sb.crate == body.crate and sb.def_ not in seen_b:
+                                        seen_b.add(sb.def_)
+                                        walk(sb, [0], depth - 1)
+                            continue
+                        if node["k"] != "assign":
+                            continue
+                        rv = node["rv"]
+                        ops = {"binop": lambda: [rv["a"], rv["b"]], "unop": lambda: [rv["a"]], "cast": lambda: [rv["op"]], "use": lambda: [rv["op"]],
+                               "agg": lambda: rv["ops"]}.get(rv["k"], lambda: [])()
+                        if rv["k"] == "ref":
+                            work.append(rv["place"]["l"])
+                        for o in ops:
+                            pl = o.get("copy") or o.get("move")
+                            if pl is not None:
+                                work.append(pl["l"])
+            root = op_local(c.args[1]) if len(c.args) > 1 else None
+            if root is None:
+                continue
+            n7 += 1
+            walk(b, [root], 3)
+            ctx.check(not bad and bool(exact), "R19.7", fnkey(b) + "#duration-read-without-truncation", loc(b, c.bb),
+                      "the number written for a Duration is derived through a truncating accessor (%s): the part of the duration below that unit is "
+                      "dropped before any unit is attached, so number x unit no longer equals the measured time" % ", ".join(bad) if bad else
+                      "cannot find how the Duration is turned into a number (expected as_secs_f64 / as_nanos)",
+                      "Duration read through %s only" % sorted(set(exact)))
+    ctx.floor("R19.7", "Duration value writes", n7, 1)
     return EXPL
